@@ -19,6 +19,8 @@ import (
 	"strings"
 	"syscall"
 	"time"
+	"verifmc/drivers"
+	"verifmc/streams"
 
 	"github.com/gobwas/httphead"
 	"github.com/gobwas/ws"
@@ -736,6 +738,85 @@ func main() {
 				})
 			}
 			t.Outcome("returned")
+		})
+
+		// Resource use must not grow with the number of frames a peer puts between two points of
+		// a message: the depth of the call stack at the moment the reader asks the transport for
+		// more bytes is sampled for runs of 8 and of 600 frames (empty pings, pings, pongs between
+		// two fragments; empty continuation fragments; unwanted messages that a typed read helper
+		// skips). A stack that deepens with every frame ends in an unrecoverable stack overflow
+		// for a long enough run.
+		r.Part("E5-stack-depth-independent-of-run-length", func(t *explore.T) {
+			type gen struct {
+				name string
+				mk   func(side streams.Side, n int) []streams.Frame
+			}
+			fr := func(side streams.Side, i int, op byte, fin bool, p string) streams.Frame {
+				return streams.Frame{H: refmodel.Hdr{Fin: fin, Op: op, Masked: side == streams.Server, Mask: streams.Masks[i%3]}, Payload: []byte(p)}
+			}
+			between := func(op byte, payload string) func(side streams.Side, n int) []streams.Frame {
+				return func(side streams.Side, n int) []streams.Frame {
+					out := []streams.Frame{fr(side, 0, 2, false, "a")}
+					for i := 0; i < n; i++ {
+						out = append(out, fr(side, i+1, op, op != 0, payload))
+					}
+					return append(out, fr(side, n+1, 0, true, "b"), fr(side, n+2, 1, true, "end"))
+				}
+			}
+			gens := []gen{
+				{"empty pings between two fragments", between(9, "")},
+				{"pings between two fragments", between(9, "pi")},
+				{"pongs between two fragments", between(10, "")},
+				{"empty non-final continuation fragments", between(0, "")},
+				{"binary messages before a text message", func(side streams.Side, n int) []streams.Frame {
+					var out []streams.Frame
+					for i := 0; i < n; i++ {
+						out = append(out, fr(side, i, 2, true, "x"))
+					}
+					return append(out, fr(side, n, 1, true, "end"))
+				}},
+				{"pings before a message", func(side streams.Side, n int) []streams.Frame {
+					var out []streams.Frame
+					for i := 0; i < n; i++ {
+						out = append(out, fr(side, i, 9, true, ""))
+					}
+					return append(out, fr(side, n, 1, true, "end"))
+				}},
+			}
+			ds := []drivers.Driver{drivers.ReaderLoop(7), drivers.ReaderDiscard(0), drivers.NextReaderLoop(), drivers.ReadMessageLoop(), drivers.ReadDataLoop("Generic"), drivers.ReadDataLoop("Text")}
+			depthOf := func(d drivers.Driver, side streams.Side, frames []streams.Frame) (int, error) {
+				data, _ := streams.Wire(frames)
+				src := env.NewSrc(data)
+				max := 0
+				pcs := make([]uintptr, 4096)
+				src.OnRead = func([]byte, int) {
+					if n := runtime.Callers(0, pcs); n > max {
+						max = n
+					}
+				}
+				var res drivers.Result
+				d.Run(src, side, drivers.Cfg{}, &res)
+				return max, res.Err
+			}
+			for _, g := range gens {
+				for _, d := range ds {
+					for _, side := range []streams.Side{streams.Server, streams.Client} {
+						g, d, side := g, d, side
+						t.Do(func() string { return fmt.Sprintf("%s: %s, driver=%s, runs of 8 and 600", side, g.name, d.Name) }, func() *explore.Fail {
+							a, errA := depthOf(d, side, g.mk(side, 8))
+							b, errB := depthOf(d, side, g.mk(side, 600))
+							if errA != io.EOF || errB != io.EOF {
+								return explore.Failf("valid-long-run-refused:"+d.Name, "err(8)=%v err(600)=%v", errA, errB)
+							}
+							if b > a+8 {
+								return explore.Failf("stack-deepens-with-every-frame:"+d.Name, "call depth at the transport read: %d frames deep after a run of 8, %d after a run of 600", a, b)
+							}
+							t.Outcome("bounded")
+							return nil
+						})
+					}
+				}
+			}
 		})
 	})
 }
